@@ -224,6 +224,7 @@ fn default_cfg() -> Cfg {
             wzero: None,
             flush: SideCall::Ok,
             close: SideCall::Ok,
+            trace: false,
         },
     }
 }
@@ -278,6 +279,13 @@ fn parse_cfg(line: &str) -> Option<Cfg> {
             "wzero" => cfg.writer.wzero = Some(val.parse().ok()?),
             "wflush" => cfg.writer.flush = parse_side_call(val)?,
             "wclose" => cfg.writer.close = parse_side_call(val)?,
+            "wtrace" => {
+                cfg.writer.trace = match val {
+                    "0" => false,
+                    "1" => true,
+                    _ => return None,
+                }
+            }
             _ => return None,
         }
     }
